@@ -115,6 +115,12 @@ BOUNDED = {
         statement="when several operations use one rejected / missing component (parameter, response, request body), each of them is "
                   "generated or named by a diagnostic of its own (a shared diagnostic object is renamed by the last user)",
         bound="4 kinds of bad component x 2-3 operations"),
+    "tag_filing": dict(
+        unit="openapi_python_client.parser.openapi:EndpointCollection.from_data (tags, generate_all_tags, module names within a tag)",
+        where="openapi_python_client/parser/openapi.py",
+        statement="an operation is filed under its FIRST tag (all of its tags with generate_all_tags), or is named by a diagnostic; no "
+                  "tag holds two operations with one module name",
+        bound="2 operations x 7 tag lists each x 3 pairs of operation ids x generate_all_tags on/off (294 cases)"),
     "odd_documents": dict(
         unit="openapi_python_client.generate (parser and templates) on loadable documents with unusual but legal content",
         where="openapi_python_client/__init__.py",
